@@ -141,6 +141,8 @@ type BlockUtils struct {
 	AcceptNilBlock bool
 	// NilOnCancel: RequestNewBlockProposal answers a cancelled context by returning no block at all.
 	NilOnCancel bool
+	// NilLive (optional): the factory has nothing to propose right now and returns no block although its context is live.
+	NilLive func(h uint64) bool
 	// Hooks (optional). OnRequest runs inside RequestNewBlockProposal before the block is minted;
 	// OnValidate runs inside ValidateBlockProposal before the verdict.
 	OnRequest  func(ctx context.Context, h uint64)
@@ -154,6 +156,10 @@ func (u *BlockUtils) RequestNewBlockProposal(ctx context.Context, h primitives.B
 	}
 	if u.NilOnCancel && ctx.Err() != nil {
 		u.Log.Add(Event{Node: u.Node, Kind: EvRequestBlock, H: uint64(h), CtxErr: true, Note: "nil block returned"})
+		return nil, nil
+	}
+	if u.NilLive != nil && ctx.Err() == nil && u.NilLive(uint64(h)) {
+		u.Log.Add(Event{Node: u.Node, Kind: EvRequestBlock, H: uint64(h), Note: "nil block returned under a live context"})
 		return nil, nil
 	}
 	n := atomic.AddUint64(&u.cnt, 1)
